@@ -76,6 +76,10 @@ def build_case(seed_cid):
     for d in decls:
         for _ in range(rng.choice([1, 2])):
             b, nm = m_re.gen_buffer(rng, d["ast"], d["alpha"], wide=(True in d["modes"]), both=(len(d["modes"]) == 2))
+            if d["nocase"] and rng.random() < 0.7:
+                # the data carries the other case of some letters (the atoms of a nocase string must cover them all)
+                from vlib.m_text import _case_flip
+                b = _case_flip(b, rng)
             bufs.append(b)
             near.append(nm)
     bufs = bufs[:5]
@@ -107,6 +111,9 @@ def build_case(seed_cid):
             src.append("rule m%d { condition: ext matches %s }" % (i, d["re"]))
     text = "\n".join(src) + "\n"
     lines = ["cnew 0"]
+    if rng.random() < 0.25:
+        # YR_CONFIG_MAX_MATCH_DATA only limits the bytes copied for the callback; offsets and lengths must not depend on it
+        lines.insert(0, "cfg matchdata %d" % rng.choice([0, 1, 2, 5, 64, 4096]))
     if mstr is not None:
         lines.append("cdef 0 s %s %s" % (hx("ext"), hx(mstr)))
     lines += ["cadd 0 - " + hx(text), "crules 0 0"]
